@@ -26,10 +26,15 @@ type Log = Rc<RefCell<Vec<Rec>>>;
 struct ProbeNode {
     id: usize,
     log: Log,
+    /// when it holds this node's id the node panics instead of processing (the case asked for it)
+    bomb: Rc<std::cell::Cell<Option<usize>>>,
 }
 
 impl Node for ProbeNode {
     fn process(&mut self, inputs: &[Input], output: &mut [Buffer]) {
+        if self.bomb.get() == Some(self.id) {
+            panic!("probe node {} panics on request", self.id);
+        }
         let rec = Rec {
             id: self.id,
             input_ptrs: inputs.iter().map(|i| i.buffers().as_ptr() as usize).collect(),
@@ -71,6 +76,10 @@ pub struct Case {
     /// (meters, recorders) are legal and must still be processed.
     #[serde(default)]
     pub bufs: Vec<usize>,
+    /// before the checked calls, one process call (towards the first output node) during which this node panics; the
+    /// panic is caught and the same processor is used for the checked calls
+    #[serde(default)]
+    pub panic_label: Option<usize>,
 }
 
 /// the two containers behind one interface
@@ -84,7 +93,8 @@ pub fn check(c: &Case, st: &mut Stats) -> CheckResult {
     let total = c.n + if c.stable { c.added } else { 0 };
     ensure!(total >= 1, "bad case: empty graph");
     let nbufs = |id: usize| -> usize { if c.bufs.is_empty() { 1 } else { c.bufs[id % c.bufs.len()] } };
-    let mk = |id: usize| NodeData::new(ProbeNode { id, log: log.clone() }, vec![Buffer::SILENT; nbufs(id)]);
+    let bomb: Rc<std::cell::Cell<Option<usize>>> = Rc::new(std::cell::Cell::new(None));
+    let mk = |id: usize| NodeData::new(ProbeNode { id, log: log.clone(), bomb: bomb.clone() }, vec![Buffer::SILENT; nbufs(id)]);
     let mut g = if c.stable { G::Stable(StableGraph::with_capacity(0, 0)) } else { G::Plain(Graph::with_capacity(0, 0)) };
     let mut idx: BTreeMap<usize, NodeIndex> = BTreeMap::new();
     let mut live: BTreeSet<usize> = BTreeSet::new();
@@ -181,6 +191,18 @@ pub fn check(c: &Case, st: &mut Stats) -> CheckResult {
     }
     let mut p = if c.stable { P::Stable(Processor::with_capacity(c.proc_capacity)) } else { P::Plain(Processor::with_capacity(c.proc_capacity)) };
 
+    if let (Some(pl), Some(&o)) = (c.panic_label, c.outputs.first()) {
+        // a node blows up in the middle of a traversal; whatever the processor had collected must not leak into later calls
+        let out = live_v[o % live_v.len()];
+        bomb.set(Some(live_v[pl % live_v.len()]));
+        let r = vp_core::pan::catch(|| match (&mut p, &mut g) {
+            (P::Plain(p), G::Plain(g)) => p.process(g, idx[&out]),
+            (P::Stable(p), G::Stable(g)) => p.process(g, idx[&out]),
+            _ => unreachable!(),
+        });
+        bomb.set(None);
+        st.class_if(r.is_err(), "a node panicked during an earlier call on the same processor");
+    }
     for (call, &o) in c.outputs.iter().enumerate() {
         let out = live_v[o % live_v.len()];
         // expected set: reverse reachability from the output node
@@ -323,8 +345,8 @@ pub fn case_strategy(max_n: usize) -> impl Strategy<Value = Case> {
     (1usize..=max_n, any::<bool>()).prop_flat_map(|(n, stable)| {
         let e = proptest::collection::vec((0..n, 0..n), 0..(3 * n + 2));
         let late = proptest::collection::vec((0..n + 3, 0..n + 3), 0..6);
-        (e, proptest::collection::vec(0..n, 0..(n / 2 + 1)), 0usize..3, late, proptest::collection::vec(0usize..64, 1..5), 0usize..(n + 2), prop_oneof![2 => Just(vec![]), 1 => proptest::collection::vec(0usize..=2, 1..5)]).prop_map(
-            move |(edges, removed, added, late_edges, outputs, proc_capacity, bufs)| Case {
+        (e, proptest::collection::vec(0..n, 0..(n / 2 + 1)), 0usize..3, late, proptest::collection::vec(0usize..64, 1..5), 0usize..(n + 2), prop_oneof![2 => Just(vec![]), 1 => proptest::collection::vec(0usize..=2, 1..5)], prop_oneof![3 => Just(None), 1 => (0usize..64).prop_map(Some)]).prop_map(
+            move |(edges, removed, added, late_edges, outputs, proc_capacity, bufs, panic_label)| Case {
                 stable,
                 n,
                 edges,
@@ -334,6 +356,7 @@ pub fn case_strategy(max_n: usize) -> impl Strategy<Value = Case> {
                 outputs,
                 proc_capacity,
                 bufs,
+                panic_label,
             },
         )
     })
@@ -342,12 +365,12 @@ pub fn case_strategy(max_n: usize) -> impl Strategy<Value = Case> {
 pub fn run(ctx: &mut Ctx) {
     ctx.set_rule(
         "cases are (container Graph | StableGraph, node count, multiset of directed edges incl. self-loops and parallel edges, StableGraph: nodes removed after construction / nodes added afterwards (slot reuse) / late edges, \
-         sequence of output nodes for consecutive process calls on one processor, processor capacity); enumerated: every multigraph on up to 3 nodes with multiplicity 0..2 on each of the n^2 ordered pairs x every output node, \
+         sequence of output nodes for consecutive process calls on one processor, processor capacity, optionally a node that panics (caught) during a call made before the checked ones); enumerated: every multigraph on up to 3 nodes with multiplicity 0..2 on each of the n^2 ordered pairs x every output node, \
          every digraph with self-loops on 4 nodes x every output node (thorough: 5 nodes without self-loops), every single-node removal of every 3-node stable multigraph; random: up to 14 nodes, and mixers with 17..=80 incoming edges from up to 39 sources on a processor created with capacity 0..=5; \
          non-trivial: cycle, self-loop, parallel edge, a node not reaching the output, a diamond, or a vacant slot",
     );
     ctx.assume("nodes are instrumented (identity, input buffer pointers, own buffer pointer per invocation); expected set = reverse reachability over the harness's own edge list; the order of a node's inputs is unspecified and not asserted; values are small integers so that evaluation order cannot matter");
-    for c in ["upstream subgraph has a cycle", "self-loop", "parallel edges", "a node that does not reach the output", "diamond (reconverging paths)", "stable graph with a vacant slot", "node without output buffers"] {
+    for c in ["upstream subgraph has a cycle", "self-loop", "parallel edges", "a node that does not reach the output", "diamond (reconverging paths)", "stable graph with a vacant slot", "node without output buffers", "a node panicked during an earlier call on the same processor"] {
         ctx.require_class(c);
     }
     // (a) every multigraph on n <= 3 nodes, multiplicity 0..2, every output node, both containers
@@ -365,12 +388,12 @@ pub fn run(ctx: &mut Ctx) {
                 k /= 3;
             }
             for out in 0..n {
-                cases.push(Case { stable: code % 2 == 0, n, edges: edges.clone(), removed: vec![], added: 0, late_edges: vec![], outputs: vec![out, (out + 1) % n], proc_capacity: code % 4, bufs: if code % 5 == 0 { vec![0, 1, 2] } else { vec![] } });
+                cases.push(Case { stable: code % 2 == 0, n, edges: edges.clone(), removed: vec![], added: 0, late_edges: vec![], outputs: vec![out, (out + 1) % n], proc_capacity: code % 4, bufs: if code % 5 == 0 { vec![0, 1, 2] } else { vec![] }, panic_label: if code % 7 == 3 { Some(code % 3) } else { None } });
             }
             // every single removal (stable) followed by one re-added node wired like the removed one's successor
             if n == 3 && code % 3 == 0 {
                 for r in 0..n {
-                    cases.push(Case { stable: true, n, edges: edges.clone(), removed: vec![r], added: code % 2, late_edges: vec![(3, (r + 1) % 3), ((r + 2) % 3, 3)], outputs: vec![(r + 1) % 3, 0, 1], proc_capacity: 0, bufs: vec![] });
+                    cases.push(Case { stable: true, n, edges: edges.clone(), removed: vec![r], added: code % 2, late_edges: vec![(3, (r + 1) % 3), ((r + 2) % 3, 3)], outputs: vec![(r + 1) % 3, 0, 1], proc_capacity: 0, bufs: vec![], panic_label: None });
                 }
             }
         }
@@ -394,7 +417,7 @@ pub fn run(ctx: &mut Ctx) {
                     }
                 }
             }
-            Case { stable: code % 2 == 1, n: 4, edges, removed: if code % 8 == 7 { vec![(code % 4) as usize] } else { vec![] }, added: 0, late_edges: vec![], outputs: vec![out], proc_capacity: 4, bufs: if code % 3 == 0 { vec![1, 0, 2, 1, 0] } else { vec![] } }
+            Case { stable: code % 2 == 1, n: 4, edges, removed: if code % 8 == 7 { vec![(code % 4) as usize] } else { vec![] }, added: 0, late_edges: vec![], outputs: vec![out], proc_capacity: 4, bufs: if code % 3 == 0 { vec![1, 0, 2, 1, 0] } else { vec![] }, panic_label: if code % 11 == 5 { Some((code % 4) as usize) } else { None } }
         },
         check,
     );
@@ -419,7 +442,7 @@ pub fn run(ctx: &mut Ctx) {
                         }
                     }
                 }
-                Case { stable: code % 2 == 1, n: 5, edges, removed: vec![], added: 0, late_edges: vec![], outputs: vec![out], proc_capacity: 0, bufs: vec![] }
+                Case { stable: code % 2 == 1, n: 5, edges, removed: vec![], added: 0, late_edges: vec![], outputs: vec![out], proc_capacity: 0, bufs: vec![], panic_label: None }
             },
             check,
         );
@@ -431,7 +454,7 @@ pub fn run(ctx: &mut Ctx) {
         // node n-1 is the mixer; sources 0..n-1 feed it round-robin (parallel edges once fan > n - 1), plus one self-loop
         let mut edges: Vec<(usize, usize)> = (0..fan).map(|k| (k % (n - 1), n - 1)).collect();
         edges.push((n - 1, n - 1));
-        Case { stable, n, edges, removed: vec![], added: 0, late_edges: vec![], outputs: vec![n - 1, n - 1], proc_capacity, bufs }
+        Case { stable, n, edges, removed: vec![], added: 0, late_edges: vec![], outputs: vec![n - 1, n - 1], proc_capacity, bufs, panic_label: None }
     });
     ctx.prop("wide-fan-in", ctx.pick(2_000, 20_000), wide, check);
 }
